@@ -216,6 +216,10 @@ class Check:
 
         with ThreadPoolExecutor(max_workers=8) as tp:
             results = list(tp.map(confirm_group, todo))
+        # a replay that failed for a reason of its own (time-out of the fresh interpreter on a loaded machine) is
+        # repeated once, alone, before the disagreement is called unconfirmed
+        results = [(r if r[0] is not None or not any(isinstance(t, dict) and t.get("error") for t in r[1]) else confirm_group(g))
+                   for g, r in zip(todo, results)]
         for g, (confirmed, tries) in zip(todo, results):
             self.cov["public_api_replays"] += len(tries)
             if confirmed is None:
@@ -241,7 +245,7 @@ class Check:
         if unconfirmed:
             self.extra["unconfirmed_disagreements"] = unconfirmed[:10]
             # a disagreement that the public API does not reproduce is a harness problem
-            self.errors.append({"unconfirmed_disagreements": len(unconfirmed)})
+            self.errors.append({"unconfirmed_disagreements": len(unconfirmed), "first": unconfirmed[0]})
         self._write_evidence(n_viol, known_seen)
         for l in out_lines:
             print(l)
